@@ -31,8 +31,8 @@ type event struct {
 	Wall  int64  `json:"wall,omitempty"`  // NowNano at the moment of recording
 	Key   string `json:"key,omitempty"`
 	Tid   int    `json:"tid"`
-	Prev  int64  `json:"prev,omitempty"`
-	Res   int64  `json:"res,omitempty"`
+	Prev  int64  `json:"prev"`
+	Res   int64  `json:"res"`
 	Err   string `json:"err,omitempty"`
 	Op    string `json:"op,omitempty"`
 	Cl    int    `json:"cl,omitempty"`
